@@ -768,6 +768,13 @@ Definition final (st : state) (ops : list op) : state :=
   fold_left (fun s o => fst (step s o)) ops st.
 
 
+(* compact description of a LARGE population (scale stream of the correspondence): n agents with ids 1..n, classes
+   cycling through the hierarchy, heavily tied small attribute values computed from a seed *)
+Definition gen_agent (seed i : Z) : id * agent :=
+  (i, {| a_cls := i mod 5;
+         a_attrs := [(0, (i * i + seed * i + 3) mod 4); (1, (i * 7 + seed) mod 3); (2, (i + seed) mod 2)] |}).
+Definition gen_agents (n seed : Z) : table := map (gen_agent seed) (zrange 1 n).
+
 Record case := { c_agents : table; c_init : list id; c_ops : list op }.
 Definition init_state (c : case) : state :=
   {| st_tbl := c_agents c; st_pool := [(0, new_set (c_init c))] |}.
